@@ -6,6 +6,8 @@ package main
 //   c20HiddenPrefix        second argument of every strings.HasPrefix(f.Name(), …) in both functions (must be one value)
 //   c20ExecMask            the mask of `f.Mode()&<mask> == 0` in CheckExecutablePermissions
 //   c20RootExempt          the directory test of the walk callback is guarded by `path != dir`
+//   c20InitWalkArgs        the argument expressions of Init's call of RecursiveGetExecutablePaths (the hooks directory
+//                          and nothing else: no caller-supplied excluded directory names)
 //   c20ProcessState        package-level variables (other than sentinel errors) that the scan
 //                          (RecursiveGetExecutablePaths, RecursiveCheckLibDirectory, checkExecutableHookFile,
 //                          CheckExecutablePermissions) or Manager.Init / loadHook / NewHookManager mention: what one
@@ -198,22 +200,41 @@ func c20Facts(l *leanDefs) {
 	}
 
 	if fd := findFunc(c20File, "", "CheckExecutablePermissions"); fd != nil && fd.Body != nil {
+		// expected shape: exactly one `if f.Mode()&<mask> == 0 { return … }`. The mask is taken from any
+		// `<expr>&<int literal>` (so that the model stays as close to a changed function as it can); every
+		// other shape of the condition (another operand, further conjuncts / disjuncts) marks the facts stale.
+		nIf := 0
 		ast.Inspect(fd.Body, func(n ast.Node) bool {
-			b, ok := n.(*ast.BinaryExpr)
-			if !ok || b.Op != token.AND {
-				return true
-			}
-			if exprStr(b.X) != "f.Mode()" {
-				stale = true
-				return true
-			}
-			if lit, ok := b.Y.(*ast.BasicLit); ok && lit.Kind == token.INT {
-				if v, err := strconv.ParseInt(lit.Value, 0, 64); err == nil {
-					mask = v
+			switch x := n.(type) {
+			case *ast.IfStmt:
+				nIf++
+				ok := false
+				if c, isBin := x.Cond.(*ast.BinaryExpr); isBin && c.Op == token.EQL && exprStr(c.Y) == "0" {
+					if a, isAnd := c.X.(*ast.BinaryExpr); isAnd && a.Op == token.AND && exprStr(a.X) == "f.Mode()" {
+						ok = true
+					}
+				}
+				if !ok || x.Init != nil || x.Else != nil {
+					stale = true
+				}
+			case *ast.BinaryExpr:
+				if x.Op != token.AND {
+					return true
+				}
+				if lit, ok := x.Y.(*ast.BasicLit); ok && lit.Kind == token.INT {
+					if v, err := strconv.ParseInt(lit.Value, 0, 64); err == nil {
+						if mask >= 0 && mask != v {
+							stale = true
+						}
+						mask = v
+					}
 				}
 			}
 			return true
 		})
+		if nIf != 1 {
+			stale = true
+		}
 	}
 	if mask < 0 {
 		stale = true
@@ -248,6 +269,32 @@ func c20Facts(l *leanDefs) {
 		}
 		c20Mentions(fd, hookVars, state)
 	}
+	// the arguments Init gives to RecursiveGetExecutablePaths: the model's table of excluded directory
+	// names is file.go's own (`lib`) only as long as the caller adds none through the variadic parameter
+	walkArgs := []string{}
+	nWalkCalls := 0
+	if fd := findFunc("pkg/hook/hook_manager.go", "Manager", "Init"); fd != nil && fd.Body != nil {
+		ast.Inspect(fd.Body, func(n ast.Node) bool {
+			c, ok := n.(*ast.CallExpr)
+			if !ok {
+				return true
+			}
+			if se, ok := c.Fun.(*ast.SelectorExpr); ok && se.Sel.Name == "RecursiveGetExecutablePaths" {
+				nWalkCalls++
+				for _, a := range c.Args {
+					walkArgs = append(walkArgs, exprStr(a))
+				}
+				if c.Ellipsis.IsValid() {
+					walkArgs = append(walkArgs, "...")
+				}
+			}
+			return true
+		})
+	}
+	if nWalkCalls != 1 {
+		stale = true
+	}
+	l.def("c20InitWalkArgs", "List String", leanStrList(walkArgs), "pkg/hook/hook_manager.go: arguments of the RecursiveGetExecutablePaths call in Init")
 	var stateNames []string
 	for k := range state {
 		stateNames = append(stateNames, k)
@@ -266,6 +313,9 @@ func init() {
 		skelTarget{Name: "Manager.loadHook", File: "pkg/hook/hook_manager.go", Recv: "Manager", Func: "loadHook",
 			Fields: []string{},
 			Calls:  []string{"Rel", "NewHook", "execCommandOutput", "LoadConfig"}},
+		skelTarget{Name: "Manager.execCommandOutput", File: "pkg/hook/hook_manager.go", Recv: "Manager", Func: "execCommandOutput",
+			Fields: []string{},
+			Calls:  []string{"Output", "ExitCode", "As", "Is"}},
 		skelTarget{Name: "c20.HookConfigV0.ConvertAndCheck", File: "pkg/hook/config/config_v0.go", Recv: "HookConfigV0", Func: "ConvertAndCheck",
 			Fields: []string{"Schedules", "OnKubernetesEvents", "OnStartup"},
 			Calls:  []string{"ConvertOnStartup", "CheckSchedule", "ConvertSchedule", "CheckOnKubernetesEvent"}},
